@@ -502,16 +502,16 @@ theorem addInLoop_eq {a : Addr} {c : Cell} (hc : s.heap a = some c) :
 
 theorem cancelInLoop_eq (id : TimerId) (hl : (id.addr, id.seq) ∈ s.active → (s.heap id.addr).isSome) :
     cancelInLoop s id =
-      if (id.addr, id.seq) ∈ s.active then eraseT (emit s (.cancel id.addr id.seq s.calling)) id.addr id.seq (cellAt s id.addr)
-      else if s.calling = true then remember (emit s (.cancel id.addr id.seq s.calling)) id.addr id.seq
-      else emit s (.cancel id.addr id.seq s.calling) := by
+      if (id.addr, id.seq) ∈ s.active then eraseT (emit s (.cancel id.addr id.seq s.calling (decide ((id.addr, id.seq) ∈ s.active)))) id.addr id.seq (cellAt s id.addr)
+      else if s.calling = true then remember (emit s (.cancel id.addr id.seq s.calling (decide ((id.addr, id.seq) ∈ s.active)))) id.addr id.seq
+      else emit s (.cancel id.addr id.seq s.calling (decide ((id.addr, id.seq) ∈ s.active))) := by
   unfold cancelInLoop
   by_cases hm : (id.addr, id.seq) ∈ s.active
-  · have hl' : ((emit s (.cancel id.addr id.seq s.calling)).heap id.addr).isSome := hl hm
-    have hm' : (id.addr, id.seq) ∈ (emit s (.cancel id.addr id.seq s.calling)).active := hm
+  · have hl' : ((emit s (.cancel id.addr id.seq s.calling (decide ((id.addr, id.seq) ∈ s.active)))).heap id.addr).isSome := hl hm
+    have hm' : (id.addr, id.seq) ∈ (emit s (.cancel id.addr id.seq s.calling (decide ((id.addr, id.seq) ∈ s.active)))).active := hm
     simp only [cancelErases, hm', decide_true, if_true, chk_live hl', if_pos hm]
     rfl
-  · have hm' : (id.addr, id.seq) ∉ (emit s (.cancel id.addr id.seq s.calling)).active := hm
+  · have hm' : (id.addr, id.seq) ∉ (emit s (.cancel id.addr id.seq s.calling (decide ((id.addr, id.seq) ∈ s.active)))).active := hm
     simp only [cancelErases, cancelRemembers, hm', decide_false, if_false, Bool.false_eq_true, not_false_eq_true,
       true_and, if_neg hm]
     rfl
@@ -639,7 +639,7 @@ theorem WFp.cancelInLoop (h : WFp s B L) (id : TimerId) : WFp (cancelInLoop s id
     obtain ⟨c, h1, _⟩ := h.a_live _ hm
     exact isSome_of_eq h1
   rw [cancelInLoop_eq id hl]
-  have he : WFp (Timer.emit s (.cancel id.addr id.seq s.calling)) B L := h.emit _ (by intro x; simp)
+  have he : WFp (Timer.emit s (.cancel id.addr id.seq s.calling (decide ((id.addr, id.seq) ∈ s.active)))) B L := h.emit _ (by intro x; simp)
   split
   · rename_i hm
     obtain ⟨c, h1, _⟩ := h.a_live _ hm
